@@ -205,7 +205,8 @@ func funcSplitVec(chunk []KVPair, args []Expression, ctx *ExecuteCtx) ([]any, er
 func funcJoinVec(chunk []KVPair, args []Expression, ctx *ExecuteCtx) ([]any, error) {
 	ret := make([]any, len(chunk))
 	for i := 0; i < len(chunk); i++ {
-		row, err := funcJoin(chunk[i], args, ctx)
+		// no context: its per-row cache would still hold the previous row's values
+		row, err := funcJoin(chunk[i], args, nil)
 		if err != nil {
 			return nil, err
 		}
@@ -271,7 +272,8 @@ func funcL2DistanceVec(chunk []KVPair, args []Expression, ctx *ExecuteCtx) ([]an
 func funcFloatListVec(chunk []KVPair, args []Expression, ctx *ExecuteCtx) ([]any, error) {
 	ret := make([]any, len(chunk))
 	for i := 0; i < len(chunk); i++ {
-		row, err := funcFloatList(chunk[i], args, ctx)
+		// no context: its per-row cache would still hold the previous row's values
+		row, err := funcFloatList(chunk[i], args, nil)
 		if err != nil {
 			return nil, err
 		}
@@ -283,7 +285,8 @@ func funcFloatListVec(chunk []KVPair, args []Expression, ctx *ExecuteCtx) ([]any
 func funcIntListVec(chunk []KVPair, args []Expression, ctx *ExecuteCtx) ([]any, error) {
 	ret := make([]any, len(chunk))
 	for i := 0; i < len(chunk); i++ {
-		row, err := funcIntList(chunk[i], args, ctx)
+		// no context: its per-row cache would still hold the previous row's values
+		row, err := funcIntList(chunk[i], args, nil)
 		if err != nil {
 			return nil, err
 		}
@@ -299,7 +302,8 @@ func funcToListVec(chunk []KVPair, args []Expression, ctx *ExecuteCtx) ([]any, e
 	// The element kind depends on the first argument of each row
 	ret := make([]any, len(chunk))
 	for i := 0; i < len(chunk); i++ {
-		row, err := funcToList(chunk[i], args, ctx)
+		// no context: its per-row cache would still hold the previous row's values
+		row, err := funcToList(chunk[i], args, nil)
 		if err != nil {
 			return nil, err
 		}
